@@ -711,7 +711,10 @@ class MQTTBaseProtocol(Protocol):
             self.transport.abortConnection()
         log.debug("==> {packet:7}", packet="PINGREQ")
         self.transport.write(self._pingReq.pdu)
-        self._pingReq.alarm = self.callLater(self._pingReq.keepalive, doPingError)
+        # An alarm still pending belongs to an earlier, unanswered PINGREQ and is the 
+        # one to expire first: keep it, instead of losing track of it with a new one.
+        if self._pingReq.alarm is None or not self._pingReq.alarm.active():
+            self._pingReq.alarm = self.callLater(self._pingReq.keepalive, doPingError)
 
     # ------------------------------------------------------------------------
 
